@@ -107,6 +107,8 @@ type Op struct {
 	Order   string     `json:"order,omitempty"`
 	Inc     bool       `json:"inc,omitempty"`
 	D       int        `json:"d,omitempty"`
+	// FilterRace: a by-filter mutation (MOp, F) paused between its select and its update while Inner runs
+	Inner []Op `json:"inner,omitempty"`
 }
 
 // Schedule is a named operation sequence with a configuration.
